@@ -3,6 +3,7 @@ import copy
 from lib import *
 
 PROP = "C12"
+PAR_OK = True
 LEVEL = "proof"
 RULE = ("random multifurcating trees (3..12 tips, rooted/unrooted, parent slot at random positions, inner names/comments "
         "sometimes), tip states over 1..4 states (plain and exotic state names to exercise sort.Strings, extra map entries "
